@@ -56,6 +56,10 @@ type cbConfig struct {
 	sideEffects  bool
 	slowLogger   bool // the caller's logger is slow: every log call is a point where the scheduler may switch tasks
 	fallbackKind int  // 0 plain 503, 1 cbreaker.ResponseFallback, 2 cbreaker.RedirectFallback
+	// neighbour: the process has a second breaker, protecting something else, with periods of its own (or the same
+	// ones), which trips and recovers on its own traffic while the breaker under test is judged
+	neighbour                      bool
+	nbFallback, nbRecovery, nbTick time.Duration
 }
 
 type countingEffect struct{ n int }
@@ -64,7 +68,10 @@ func (c *countingEffect) Exec() error { c.n++; return nil }
 
 // cbWorld is one breaker under simulation together with everything observed.
 type cbWorld struct {
-	abandoned        func() bool  // draws whether the next request arrives with its context already cancelled
+	other            *cbreaker.CircuitBreaker // the neighbour (cfg.neighbour)
+	otherStatus      int
+	otherPokes       int
+	abandoned        func() int   // draws whether the next request arrives with its context already done: 0 no, 1 cancelled, 2 past its deadline
 	handler          http.Handler // the protected handler (for re-wrapping)
 	r                *simkit.Run
 	cfg              cbConfig
@@ -161,6 +168,15 @@ func newWorld(r *simkit.Run, cfg cbConfig) *cbWorld {
 	}
 	w.cb = cb
 	w.handler = handler
+	if cfg.neighbour {
+		o, err := cbreaker.New(http.HandlerFunc(func(rw http.ResponseWriter, _ *http.Request) { rw.WriteHeader(w.otherStatus) }),
+			"ResponseCodeRatio(500, 600, 0, 600) > 0.5", cbreaker.FallbackDuration(cfg.nbFallback), cbreaker.RecoveryDuration(cfg.nbRecovery), cbreaker.CheckPeriod(cfg.nbTick))
+		if err != nil {
+			w.sim.Shutdown()
+			r.T.Fatalf("neighbour breaker: %v", err)
+		}
+		w.other = o
+	}
 	w.stepTime = []time.Duration{0}
 	w.obs = []string{w.observe()}
 	w.sim.AfterStep = func(t *simrt.Task) {
@@ -208,12 +224,21 @@ func (w *cbWorld) arrive() *cbReq {
 	q := &cbReq{id: len(w.reqs), rec: simkit.NewRecorder()}
 	w.reqs = append(w.reqs, q)
 	ctx := context.WithValue(context.Background(), ctxKey{}, q)
-	if w.abandoned != nil && w.abandoned() {
-		// the client has already given up on this request (its context is cancelled): the breaker decides as for any other
-		c, cancel := context.WithCancel(ctx)
-		cancel()
-		ctx = c
-		w.r.Fault("request-already-abandoned")
+	if w.abandoned != nil {
+		// the client has already given up on this request, or a deadline set in front of the breaker has passed (its
+		// context is done): the breaker decides as for any other, and its response counts as any other
+		switch w.abandoned() {
+		case 1:
+			c, cancel := context.WithCancel(ctx)
+			cancel()
+			ctx = c
+			w.r.Fault("request-already-abandoned")
+		case 2:
+			c, cancel := context.WithDeadline(ctx, time.Unix(1, 0))
+			defer cancel()
+			ctx = c
+			w.r.Fault("request-past-its-deadline")
+		}
 	}
 	req := (&http.Request{Method: "GET", URL: &url.URL{Scheme: "http", Host: "sim", Path: "/"}, Header: http.Header{}, Host: "sim", RemoteAddr: "10.0.0.1:1"}).
 		WithContext(ctx)
@@ -556,4 +581,27 @@ func drawCheckPeriod(rt *rapid.T) time.Duration {
 		return 0
 	}
 	return drawDuration(rt, "check-period")
+}
+
+// drawAbandoned: whether requests with a context that is already done occur in this run at all is drawn once; if they
+// do, one request in four is such a request.
+func drawAbandoned(rt *rapid.T) func() int {
+	if rapid.IntRange(0, 2).Draw(rt, "requests-with-done-contexts") != 0 {
+		return nil
+	}
+	return func() int {
+		if rapid.IntRange(0, 3).Draw(rt, "abandoned") != 0 {
+			return 0
+		}
+		return rapid.IntRange(1, 2).Draw(rt, "abandoned-how")
+	}
+}
+
+// pokeNeighbour sends one request of the neighbour's own traffic through the neighbour breaker (by the coordinator,
+// between scheduler steps: the neighbour shares nothing with the breaker under test but the process and the clock).
+func (w *cbWorld) pokeNeighbour(status int) {
+	w.otherStatus = status
+	w.otherPokes++
+	req := &http.Request{Method: "GET", URL: &url.URL{Scheme: "http", Host: "other", Path: "/"}, Header: http.Header{}, Host: "other", RemoteAddr: "10.0.0.2:1"}
+	w.other.ServeHTTP(simkit.NewRecorder(), req)
 }
